@@ -36,6 +36,21 @@ def isLog : Ev → Bool
 
 def nLog (t : List Ev) : Nat := (t.filter isLog).length
 
+def isHeaders : Ev → Bool
+  | .dh _ _ => true
+  | _ => false
+
+/-- the event carries the end of the downstream stream -/
+def isEos : Ev → Bool
+  | .dh _ e => e
+  | .dd e => e
+  | .dt => true
+  | _ => false
+
+def isReset : Ev → Bool
+  | .dr => true
+  | _ => false
+
 /-- the client saw a well-formed exchange so far -/
 def senderOk (t : List Ev) : Bool := !(snd t).bad
 
